@@ -69,6 +69,15 @@ func (vs *VoteStatus) update(voteType VoteType, validatorType params.ValidatorKi
 	}
 }
 
+// clear forgets that voteType crossed its quorum (the quorum was lost again).
+func (vs *VoteStatus) clear(voteType VoteType, validatorType params.ValidatorKind) {
+	if validatorType == params.KindChamber && vs.chamber != nil {
+		delete(vs.chamber, voteType)
+	} else if validatorType == params.KindHouse && vs.house != nil {
+		delete(vs.house, voteType)
+	}
+}
+
 func (vs *VoteStatus) status(voteType VoteType, validatorType params.ValidatorKind) bool {
 	if validatorType == params.KindChamber && vs.chamber != nil {
 		return vs.chamber[voteType]
@@ -605,6 +614,17 @@ func (v *Voter) processVoteMsg(ev VoteMsgEvent, status MsgReceivedStatus) (error
 		return nil, false
 
 	case addrDifferentVote:
+		if voteInfoData != nil && wrapper == v.votesMgr {
+			// The double voter's first vote has just been removed from the tally: a quorum noted
+			// earlier for that block may be gone. Forget it, otherwise a certificate-round commit
+			// decided later (precommit quorum AND certificate quorum) relies on a stale flag.
+			if st := v.voteOver[voteInfoData.Hash]; st != nil {
+				_, left := wrapper.getVotes(voteType, voteInfoData.Hash, validatorType)
+				if !OverThreshold(left, threshold, voteType != Certificate) {
+					st.clear(voteType, validatorType)
+				}
+			}
+		}
 		if voteInfoData == nil || voteType == NextIndex {
 			return nil, false
 		}
